@@ -742,11 +742,13 @@ def r4(fx, chk):
         alts = [x for x in LY.walk(L) if x["n"] == "alt"]
         ok = False
         why = "no size test"
+        # immutable locals of the function stand for their initialisers (`let fourcc: u32 = self.name.into()`)
+        lets = {x["pat"]["name"]: x["init"] for x in LY.walk(L) if x["n"] == "let" and x.get("pat", {}).get("k") == "bind" and not x["pat"].get("mut") and x.get("init") is not None}
         for a in alts:
             atom, pol = LY.norm_cond(fx, a["cond"])
             if atom == "size>4294967295" and pol:
-                big = [("w%d:%s" % (x["w"], LY.norm_expr(x["val"]))) for x in a["then"]["items"] if x["n"] == "atom"]
-                small = [("w%d:%s" % (x["w"], LY.norm_expr(x["val"]))) for x in a["else"]["items"] if x["n"] == "atom"]
+                big = [("w%d:%s" % (x["w"], LY.norm_expr(x["val"], lets))) for x in a["then"]["items"] if x["n"] == "atom"]
+                small = [("w%d:%s" % (x["w"], LY.norm_expr(x["val"], lets))) for x in a["else"]["items"] if x["n"] == "atom"]
                 ok = big == ["w4:1", "w4:name", "w8:size"] and small == ["w4:size", "w4:name"]
                 why = "64-bit form %s, 32-bit form %s" % (big, small)
         chk.require(ok, "R4", "header-write", "size > u32::MAX => [1][type][u64 size], else [u32 size][type]", "BoxHeader::write does not select/lay out the two header forms as ISO/IEC 14496-12 4.2 prescribes: %s" % why, site_of(hw[0]))
